@@ -60,13 +60,60 @@ def build(reg):
     reg.add(Contract(
         f"{PARSER}.FortranFile.strip_comment", prop="C06", receiver_cls="FortranFile", params={"line": STR},
         fields={"self.fixed": BOOL}, result=STR,
-        ensures=[("prefix", "startswith(line, result)"),
-                 ("free_no_bang", "implies(not self.fixed and not re_FREE_OPENMP(line), '!' not in result)")],
+        ensures=[("prefix", "startswith(old(line), result)"),
+                 ("cut_at_first_comment_mark", "result == old(line) or result == '' or "
+                                               "first_bang(old(line), (5 if self.fixed else -1), len(result) + 1) == len(result)")],
         calls={"FRegex.FIXED_COMMENT.match": m_regex_match("FIXED_COMMENT"),
                "FRegex.FIXED_OPENMP.match": m_regex_match("FIXED_OPENMP"),
-               "FRegex.FREE_OPENMP.match": m_regex_match("FREE_OPENMP")},
+               "FRegex.FREE_OPENMP.match": m_regex_match("FREE_OPENMP"),
+               "find_comment_start": f"{PARSER}.find_comment_start"},
         short="FortranFile.strip_comment"))
+    reg.add(Contract(
+        f"{PARSER}.find_comment_start", prop="C06", params={"line": STR, "skip_column": INT}, result=INT,
+        locals_={"quote": STR},
+        ensures=[("a_comment_mark_or_none", "result == -1 or (0 <= result and result < len(line) and line[result] == '!' "
+                                            "and result != skip_column)"),
+                 ("none_outside_literals", "implies(result == -1, first_bang(line, skip_column, len(line)) == -1)"),
+                 ("the_first_outside_literals", "implies(result >= 0, first_bang(line, skip_column, result + 1) == result)")],
+        loops={0: LoopSpec("for (i, char) in enumerate(line)", index="_k", invariants=[
+            ("state", "quote == quote_state(line, _k)"), ("none_so_far", "first_bang(line, skip_column, _k) == -1")])},
+        short="find_comment_start"))
     return reg
+
+
+def sp_qs(eng, st, line, k):
+    """quote state before character k: "" outside a character literal, else the quote character that opened it"""
+    d = eng.decls
+    f = d.fun("quote_state", [smt.STR, smt.INT], smt.STR)
+    cur = f(line.t, k.t)
+    if "q_" not in k.t.s:
+        from pyvc.smt import Or as _Or, Le as _Le, Lt as _Lt, Add as _Add, IntVal as _I
+        ch = smt.At(line.t, k.t)
+        d.ground_axiom("qs.base", Eq(f(line.t, _I(0)), StrVal("")))
+        nxt = Ite(Not(Eq(cur, StrVal(""))), Ite(Eq(ch, cur), StrVal(""), cur),
+                  Ite(_Or(Eq(ch, StrVal("'")), Eq(ch, StrVal('"'))), ch, StrVal("")))
+        d.ground_axiom("qs.step", Implies(And(_Le(_I(0), k.t), _Lt(k.t, Len(line.t))), Eq(f(line.t, _Add(k.t, _I(1))), nxt)))
+    return V(STR, cur)
+
+
+def sp_fb(eng, st, line, skip, k):
+    """index of the first '!' outside character literals (and not in column `skip`) among the first k characters, else -1"""
+    d = eng.decls
+    from pyvc.smt import Le as _Le, Lt as _Lt, Add as _Add, IntVal as _I, Ge as _Ge
+    f = d.fun("first_bang", [smt.STR, smt.INT, smt.INT], smt.INT)
+    cur = f(line.t, skip.t, k.t)
+    if "q_" not in k.t.s:
+        qs = sp_qs(eng, st, line, k).t
+        ch = smt.At(line.t, k.t)
+        d.ground_axiom("fb.base", Eq(f(line.t, skip.t, _I(0)), _I(-1)))
+        here = And(Eq(qs, StrVal("")), Eq(ch, StrVal("!")), Not(Eq(k.t, skip.t)))
+        d.ground_axiom("fb.step", Implies(And(_Le(_I(0), k.t), _Lt(k.t, Len(line.t))),
+                                          Eq(f(line.t, skip.t, _Add(k.t, _I(1))), Ite(_Ge(cur, _I(0)), cur, Ite(here, k.t, _I(-1))))))
+    return V(INT, cur)
+
+
+SPEC_ENV["quote_state"] = sp_qs
+SPEC_ENV["first_bang"] = sp_fb
 
 
 def sp_re(name):
@@ -77,7 +124,8 @@ def sp_re(name):
 
 SPEC_ENV["re_FREE_OPENMP"] = sp_re("FREE_OPENMP")
 
-TARGETS = [f"{JT}.range_json", f"{JT}.uri_json", f"{JT}.change_json", f"{PARSER}.FortranFile.strip_comment"]
+TARGETS = [f"{JT}.range_json", f"{JT}.uri_json", f"{JT}.change_json", f"{PARSER}.FortranFile.strip_comment",
+           f"{PARSER}.find_comment_start"]
 
 
 # ------------------------------------------------------------------ the name regex, from the real source
@@ -284,8 +332,83 @@ def native_references():
     return None
 
 
+MULTI = {
+    # entity -> expected occurrences (file, line, column); references from every occurrence must return all of them
+    "files": {
+        "a.f90": 'program p\n  integer :: x\n  x = 1\n  print *, "hi!", x\n  print *, "it\'s", x, \'a\'\n  print *, x ! x in comment\n'
+                 '  print *, \'x "x" x\', x, "x \'x\' x!"\nend program p\n',
+        "f.f": "      program q\n      integer ix\n      ix = 1   ! ix here\n      print *, 'ix', ix\n      end program q\n",
+        "m.f90": "module m\n  interface\n    subroutine ext(n)\n      integer :: n\n    end subroutine ext\n  end interface\ncontains\n"
+                 "  subroutine s()\n    integer :: y\n    call ext(y)\n  end subroutine s\nend module m\n",
+        "u.f90": "program u\n  use m\n  integer :: k\n  call ext(k)\nend program u\n"},
+    "expect": {
+        "x": [("a.f90", 1, 13), ("a.f90", 2, 2), ("a.f90", 3, 18), ("a.f90", 4, 19), ("a.f90", 5, 11), ("a.f90", 6, 22)],
+        "ix": [("f.f", 1, 14), ("f.f", 2, 6), ("f.f", 3, 21)],
+        "ext": [("m.f90", 2, 15), ("m.f90", 4, 19), ("m.f90", 9, 9), ("u.f90", 3, 7)]},
+}
+
+
+def native_references_multi():
+    from replay.harness import Workspace, session
+    files, expect = MULTI["files"], MULTI["expect"]
+    ws = Workspace(files)
+    try:
+        msgs = [{"jsonrpc": "2.0", "method": "textDocument/didOpen", "params": {"textDocument": {"uri": ws.uri(n)}}} for n in files]
+        plan, rid = [], 1
+        for name, occ in expect.items():
+            for (f, ln, ch) in occ:
+                msgs.append({"jsonrpc": "2.0", "id": rid, "method": "textDocument/references",
+                             "params": {"textDocument": {"uri": ws.uri(f)}, "position": {"line": ln, "character": ch},
+                                        "context": {"includeDeclaration": True}}})
+                plan.append((rid, name, (f, ln, ch)))
+                rid += 1
+        srv, out = session(ws, msgs)
+        by_id = {m["id"]: m for m in out if "id" in m}
+        for rid, name, pos in plan:
+            r = by_id.get(rid, {})
+            got = sorted((x["uri"].rsplit("/", 1)[-1], x["range"]["start"]["line"], x["range"]["start"]["character"])
+                         for x in (r.get("result") or []))
+            if got != sorted(expect[name]):
+                return {"files": files, "entity": name, "invoked_at": pos, "expected": sorted(expect[name]), "returned": got,
+                        "error": (r.get("error") or {}).get("message")}
+        return None
+    finally:
+        ws.close()
+
+
+def native_keyword_argument():
+    from replay.harness import Workspace, session
+    text = ("program p\n  integer :: x\n  x = 1\n  call foo(x=x)\ncontains\n  subroutine foo(x)\n    integer :: x\n    x = 2\n"
+            "  end subroutine foo\nend program p\n")
+    ws = Workspace({"k.f90": text})
+    try:
+        uri = ws.uri("k.f90")
+        srv, out = session(ws, [
+            {"jsonrpc": "2.0", "method": "textDocument/didOpen", "params": {"textDocument": {"uri": uri}}},
+            {"jsonrpc": "2.0", "id": 1, "method": "textDocument/references",
+             "params": {"textDocument": {"uri": uri}, "position": {"line": 1, "character": 13}, "context": {"includeDeclaration": True}}}])
+        got = sorted((x["range"]["start"]["line"], x["range"]["start"]["character"])
+                     for m in out if m.get("id") == 1 for x in (m.get("result") or []))
+        want = [(1, 13), (2, 2), (3, 13)]
+        if got != want:
+            return {"source": text, "entity": "the program's variable x", "expected": want, "returned": got}
+        return None
+    finally:
+        ws.close()
+
+
 def extra(repo, reg, tier, seed):
     items = regex_items(repo, tier) + structure_items(repo) + expand_name_items(repo, tier)
+    w = native_references_multi()
+    items.append(Item("C06/session/native_references_literals_and_files", "refuted" if w else "bounded-ok", "native-run(bounded)", 0.0,
+                      mode="bounded", witness=w, confirmed=True if w else None, func=f"{LS}.get_all_references",
+                      detail="bounded: 4 files ('!' and quotes of the other kind inside character literals, trailing comments in "
+                             "free and fixed form, a procedure declared in an interface block of a module and used in another "
+                             "file): references from every occurrence vs the expected occurrence set"))
+    w = native_keyword_argument()
+    items.append(Item("C06/session/native_references_keyword_argument", "refuted" if w else "bounded-ok", "native-run(bounded)", 0.0,
+                      mode="bounded", witness=w, confirmed=True if w else None, func=f"{LS}.get_all_references",
+                      detail="bounded: one program with an argument keyword spelled like a variable of the caller"))
     w = native_references()
     items.append(Item("C06/session/native_references", "refuted" if w else "bounded-ok", "native-run(bounded)", 0.0,
                       mode="bounded", witness=w, confirmed=True if w else None, func=f"{LS}.get_all_references",
